@@ -3480,7 +3480,7 @@ def abstract_str_method(I, fr, b, name, args, kwargs, n):
             raise Unsupported('rfind(): user text after the last literal occurrence', n)
         return C(r)
     if name in ('strip', 'lstrip', 'rstrip') and (not args or args == ['\n'] or args == [' ']):
-        return I.plain(sb.strip(name, args[0] if args else None))
+        return I.plain(sb.strip(name, args[0] if args else None, strict=True))      # the analysed code's own strip
     if name in ('removeprefix', 'removesuffix') and len(args) == 1 and isinstance(args[0], (str, SegStr)):
         pre = I.seg(args[0])
         if len(pre.segs) == 0:
